@@ -28,7 +28,7 @@ ASSUMPTIONS = [
 ]
 COMPONENTS = {"real": ["pyxel.inputs.load_image / load_table", "pyxel.util.fit_into_array / load_cropped_and_aligned_image", "load_image and load_charge models inside run_mode", "real scratch filesystem (fsspec local)"], "stub": []}
 BUDGET = {"quick": {"n": 800, "wall": 100, "determinism": 4}, "thorough": {"n": 20000, "wall": 1500, "determinism": 12}}
-REQUIRED_REACH = ["op:write", "op:load_image", "op:load_table", "op:run", "rewrite_then_run", "rewrite_same_mtime_size", "fmt:npy", "fmt:fits", "fmt:txt", "delim:tab", "delim:space", "delim:comma", "delim:bar", "delim:semicolon", "place:offset", "place:align", "no_overlap_rejected", "input_larger", "input_smaller", "model:load_image", "model:load_charge"]
+REQUIRED_REACH = ["relative_to_working_directory", "second_working_directory", "op:write", "op:load_image", "op:load_table", "op:run", "rewrite_then_run", "rewrite_same_mtime_size", "fmt:npy", "fmt:fits", "fmt:txt", "delim:tab", "delim:space", "delim:comma", "delim:bar", "delim:semicolon", "place:offset", "place:align", "no_overlap_rejected", "input_larger", "input_smaller", "model:load_image", "model:load_charge"]
 
 DELIMS = {"tab": "\t", "space": " ", "comma": ",", "bar": "|", "semicolon": ";"}
 ALIGNS = ["center", "top_left", "top_right", "bottom_left", "bottom_right"]
@@ -79,7 +79,14 @@ def generate(rng, tier):
                 ops.append({"op": "run", "path": pid, "model": rng.choice(["load_image", "load_charge"]), "position": pos, "align": None, "steps": rng.randint(1, 2)})
             else:
                 ops.append({"op": "run", "path": pid, "model": rng.choice(["load_image", "load_charge"]), "position": [0, 0], "align": rng.choice(ALIGNS), "steps": 1})
-    return {"det_type": rng.choice(["CCD", "CMOS"]), "rows": det_rows, "cols": det_cols, "ops": ops}
+    scn = {"det_type": rng.choice(["CCD", "CMOS"]), "rows": det_rows, "cols": det_cols, "ops": ops}
+    # input paths relative to the configured working directory (optionally a second directory holding
+    # another file under the same relative name)
+    scn["relative"] = rng.random() < 0.4
+    if scn["relative"] and rng.random() < 0.5:
+        k = rng.randint(1, len(ops))
+        ops.insert(k, {"op": "switch_wd", "path": 0})
+    return scn
 
 
 def shrink(scn):
@@ -164,13 +171,34 @@ def execute(scn):
     def bad(clause, sig, detail):
         viol.append({"clause": clause, "signature": sig, "detail": detail})
 
-    with world.Scratch() as scratch:
+    with world.Scratch() as scratch_root:
+        scratch = os.path.join(scratch_root, "wd0")
+        os.makedirs(scratch)
+        if scn.get("relative"):
+            pyxel.set_options(working_directory=scratch)
+            stats["relative_to_working_directory"] = 1
         for k, op in enumerate(scn["ops"]):
             stats["op:" + op["op"]] = stats.get("op:" + op["op"], 0) + 1
             pid = op["path"]
+            if op["op"] == "switch_wd":
+                # a second working directory: the same relative names now denote other (not yet written) files
+                scratch = os.path.join(scratch_root, "wd1")
+                os.makedirs(scratch, exist_ok=True)
+                pyxel.set_options(working_directory=scratch)
+                stats["second_working_directory"] = 1
+                for q in list(content):
+                    w0 = dict(meta[q])
+                    w0["salt"] = w0["salt"] + 100
+                    arr0 = make_array(w0)
+                    write_file(os.path.join(scratch, f"input_{q}.{w0['fmt']}"), w0, arr0)
+                    stale_risk[q] = bool(run_before.get(q))
+                    content[q], meta[q] = arr0, dict(w0, rewritten=True, stat_kept=False)
+                    read_since_write[q] = False
+                continue
             w = op if op["op"] == "write" else meta[pid]
             ext = {"npy": "npy", "fits": "fits", "txt": "txt"}[w["fmt"]]
             path = os.path.join(scratch, f"input_{pid}.{ext}")
+            ref_path = f"input_{pid}.{ext}" if scn.get("relative") else path  # what is handed to pyxel
             if op["op"] == "write":
                 arr = make_array(op)
                 stats["fmt:" + op["fmt"]] = 1
@@ -192,10 +220,12 @@ def execute(scn):
                 read_since_write[pid] = False
                 continue
             want = content[pid]
+            if scn.get("relative"):
+                pyxel.set_options(working_directory=scratch)  # (constructing a running mode resets the option)
             hist = ("after-rewrite" + ("+same-mtime-size" if meta[pid].get("stat_kept") else "")) if meta[pid].get("rewritten") else "first-version"
             if op["op"] == "load_image":
                 try:
-                    got = pyxel.load_image(path)
+                    got = pyxel.load_image(ref_path)
                     if got.shape != want.shape or not np.array_equal(np.asarray(got, dtype=float), want):
                         bad("C20.loader", f"C20.load_image-values@{w['fmt']}" + (f"+{w['delim']}" if w["delim"] else "") + f"+{hist}", {"op": k, "shape": list(got.shape), "expected_shape": list(want.shape), "got": np.asarray(got, dtype=float).ravel()[:3].tolist(), "want": want.ravel()[:3].tolist()})
                 except Exception as exc:  # noqa: BLE001
@@ -205,7 +235,7 @@ def execute(scn):
                 if w["fmt"] == "fits":
                     continue  # load_table reads FITS *tables*, an image HDU is not a table
                 try:
-                    df = pyxel.load_table(path)
+                    df = pyxel.load_table(ref_path)
                     got = df.to_numpy(dtype=float)
                     if got.shape != want.shape or not np.array_equal(got, want):
                         bad("C20.loader", f"C20.load_table-values@{w['fmt']}" + (f"+{w['delim']}" if w["delim"] else "") + f"+{hist}", {"op": k, "shape": list(got.shape), "expected_shape": list(want.shape), "got": got.ravel()[:3].tolist(), "want": want.ravel()[:3].tolist()})
@@ -223,17 +253,17 @@ def execute(scn):
                 times = [1.0, 3.0][: op["steps"]]
                 det = world.build_detector(spec)
                 if model == "load_image":
-                    mf = ModelFunction(func="pyxel.models.photon_collection.load_image", name="load_image", arguments={"image_file": path, "position": list(op["position"]), "align": op["align"]})
+                    mf = ModelFunction(func="pyxel.models.photon_collection.load_image", name="load_image", arguments={"image_file": ref_path, "position": list(op["position"]), "align": op["align"]})
                     pipe = DetectionPipeline(photon_collection=[mf])
                     bucket = "photon"
                 else:
-                    mf = ModelFunction(func="pyxel.models.charge_generation.load_charge", name="load_charge", arguments={"filename": path, "position": list(op["position"]), "align": op["align"]})
+                    mf = ModelFunction(func="pyxel.models.charge_generation.load_charge", name="load_charge", arguments={"filename": ref_path, "position": list(op["position"]), "align": op["align"]})
                     pipe = DetectionPipeline(charge_generation=[mf])
                     bucket = "charge"
                 exp = reference_place(want, rows, cols, op["position"], op["align"])
                 place = ("align:" + op["align"]) if op["align"] else "offset"
                 try:
-                    tree = pyxel.run_mode(mode=Exposure(readout=Readout(times=times)), detector=det, pipeline=pipe, with_inherited_coords=True)
+                    tree = pyxel.run_mode(mode=Exposure(readout=Readout(times=times), working_directory=scratch if scn.get("relative") else None), detector=det, pipeline=pipe, with_inherited_coords=True)
                     raised = None
                 except Exception as exc:  # noqa: BLE001
                     tree, raised = None, exc
